@@ -59,7 +59,7 @@ func (c01) Budget(tier string) runner.Budget {
 	if tier == "thorough" {
 		return runner.Budget{Plans: 20000, PlansPerProc: 12, Wall: 14 * time.Minute}
 	}
-	return runner.Budget{Plans: 640, PlansPerProc: 8, Wall: 100 * time.Second}
+	return runner.Budget{Plans: 2400, PlansPerProc: 12, Wall: 45 * time.Second}
 }
 
 func (c01) Describe() runner.Description {
